@@ -399,7 +399,9 @@ class Driver:
             if not alive:
                 return True, False
             # did the iteration do anything observable?
-            evs = [e for e in sim.trace[n0:] if e['k'] != 'iter-end']
+            evs = [e for e in sim.trace[n0:]
+                   if e['k'] != 'iter-end'
+                   and not (e['k'] == 'q-release' and not e['released'])]
             if progressed or evs or sim.pending_cmds() or sim.inflight:
                 quiet = 0
             else:
